@@ -5,7 +5,7 @@ pd=$1; shift
 wt=$(mktemp -d /tmp/trywt.XXXX)
 git -C /repo worktree add --detach -q $wt HEAD || exit 2
 ( cd $wt && (git apply $pd/patch.diff 2>/dev/null || patch -p1 -s < $pd/patch.diff) ) || { echo "patch does not apply"; git -C /repo worktree remove --force $wt; exit 2; }
-bin=/verif/bin/vorecheck; [ -x /verif/bin/vorecheck.dev ] && bin=/verif/bin/vorecheck.dev
+bin=/verif/bin/vorecheck; [ -x /verif/bin/vorecheck.dev ] && bin=/verif/bin/vorecheck.dev; [ -n "$VBIN" ] && bin=$VBIN
 mkdir -p /tmp/vscratch_wt; cp /verif/known_findings.json /tmp/vscratch_wt/
 for p in "$@"; do
   out=$(cd /verif && timeout 300 $bin -property $p -repo $wt -verif /tmp/vscratch_wt 2>&1); rc=$?
